@@ -15,7 +15,12 @@ Three layers (see DESIGN.md "### C20"):
    running the Lean model on the AST after each pass (Python mirror of the passes, cross-checked
    against pest_meta's own output): only differences introduced by `unroll` in a grammar with skip
    rules (F-OPT-3), by `unroll` of an `e{n,m}` with n > m in a grammar without skip rules (F-OPT-4) or by
-   `list` (F-OPT-1) get the known prefixes, everything else is "unexplained"."""
+   `list` (F-OPT-1) get the known prefixes, everything else is "unexplained".
+ * boxing: a systematic family of cycle shapes (opts.cycle_family) is part of the corpus; a derive expansion
+   that rustc rejects under some option set is isolated (the diagnostics name the grammar module; bisection
+   otherwise), reported as a violation with grammar + option set, replaced by a placeholder in that option set and
+   the run goes on; independently of rustc, every cycle of the reference graph read off the emitted `rule!` types
+   must contain a rule whose `$boxed` argument is `true` (the statement of `C20_cycles_boxed`)."""
 import concurrent.futures, hashlib, json, os, random, re, subprocess, time
 from . import common, suites
 from .common import BUILD, CACHE
@@ -30,6 +35,10 @@ P_LISTER = "raw-vs-optimized: lister"
 P_SKIP = "raw-vs-optimized: trailing skip of unrolled repetition"
 P_MINMAX = "raw-vs-optimized: counted repetition with MIN > MAX"
 P_UNEXPLAINED = "raw-vs-optimized: unexplained"
+P_NOCOMPILE_BOX = "recursive grammar does not compile when boxing is reduced"
+P_NOCOMPILE = "derive output does not compile under option set"
+P_CYCLE = "reference cycle without a boxed rule"
+MAX_BUILD_ATTEMPTS = 4
 
 
 def _cases_for(g, rnd, maxlen, nrand):
@@ -119,21 +128,60 @@ def suite_opts(tier, seed):
         structure.append({"set": s.name, "attrs": s.attrs, "ref_attrs": r.attrs or "(default)", "grammars": len(streams[s.name]),
                           "differ_beyond_boxing": bad_g, "identical": same})
 
-    # --- compile the corpus under every option set -----------------------------------------------
+    # --- boxing soundness on the emitted code (no rustc, no model): every reference cycle keeps a boxed rule ----
+    box_cycles = []
+    box_checked = 0
+    for s in dsets:
+        for gid, st in streams[s.name].items():
+            edges = opts.ref_edges(st)
+            flags = dict(opts.boxed_flags(st))
+            box_checked += 1
+            cyc = opts.unboxed_cycle(edges, flags)
+            if cyc:
+                box_cycles.append({"set": s.name, "attrs": s.attrs, "gid": gid, "cycle": cyc, "boxed": flags, "edges": edges})
+
+    # --- compile the corpus under every option set; isolate what rustc rejects and go on --------------
     t1 = time.time()
     ws = os.path.join(BUILD, f"ws_opts_{tier}")
-    layout = opts.emit_all(ok, sets, ws, suites.NBINS, tag=tier[0])
-    rc, err = opts.build_all(ws)
+    by_set = {s.name: s for s in sets}
+    by_gid = {g["gid"]: g for g in ok}
+    exclude = {}
+    not_compiling = []
+    build_log = []
+    rc, err = 1, ""
+    for attempt in range(MAX_BUILD_ATTEMPTS):
+        layout = opts.emit_all(ok, sets, ws, suites.NBINS, tag=tier[0], exclude=exclude)
+        t2 = time.time()
+        rc, err = opts.build_all(ws)
+        build_log.append({"attempt": attempt, "rc": rc, "s": round(time.time() - t2, 1)})
+        if rc == 0:
+            break
+        crates = opts.failing_crates(err)
+        if not crates:
+            break                                   # fails outside the derived crates: a harness problem
+        guilty = dict(opts.blame(ws, err))          # (set, gid) -> rustc text
+        for crate in crates:
+            m = re.match(r"c20%s(\w+)_b(\d+)$" % tier[0], crate)
+            if not m or m.group(1) not in layout:
+                continue
+            sname, b = m.group(1), int(m.group(2))
+            where = layout[sname][1]
+            members = [by_gid[g] for g, k in where.items() if k == b and g not in exclude.get(sname, ())]
+            if not any((sname, g["gid"]) in guilty for g in members):
+                # the diagnostics do not point into a grammar module of this crate: bisect it
+                for g, e2 in opts.bisect_guilty(members, by_set[sname], tag=tier[0]):
+                    guilty[(sname, g["gid"])] = e2[e2.find("error"):][:1500] if "error" in e2 else e2[-1500:]
+        new = 0
+        for (sname, gid), text in sorted(guilty.items()):
+            if gid in by_gid and gid not in exclude.get(sname, ()):
+                exclude.setdefault(sname, set()).add(gid)
+                not_compiling.append({"set": sname, "attrs": by_set[sname].attrs, "box": by_set[sname].box, "gid": gid,
+                                      "grammar": by_gid[gid]["text"], "rustc": text})
+                new += 1
+        if not new:
+            break
     timing["build_s"] = round(time.time() - t1, 1)
-    failed = {}
-    if rc != 0:
-        for s in sets:
-            prefix, where = layout[s.name]
-            for b in sorted(set(where.values())):
-                if not os.path.exists(os.path.join(corpus.TARGET, "debug", f"{prefix}{b}")) or f"`{prefix}{b}`" in err:
-                    m = re.search(r"(error(\[E\d+\])?: [^\n]*\n(?:[^\n]*\n){0,12}?[^\n]*%s/b%d/src/main\.rs[^\n]*\n(?:[^\n]*\n){0,8})" % (re.escape(s.name), b), err)
-                    failed.setdefault(s.name, {})[str(b)] = {"grammars": [g for g, k in where.items() if k == b],
-                                                             "rustc": (m.group(1) if m else err[-1500:])[:1500]}
+    timing["build_attempts"] = build_log
 
     # --- run the same cases on every option set --------------------------------------------------
     t1 = time.time()
@@ -141,19 +189,22 @@ def suite_opts(tier, seed):
     cases = []
     for g in ok:
         big = len(g["rules"]) > 40
-        if tier == "quick":
+        if g["gid"].startswith("y_"):
+            cases += _cases_for(g, rnd, 3, 4)         # the cycle-shape family: many small grammars
+        elif tier == "quick":
             cases += _cases_for(g, rnd, 4, 10)
         else:
             cases += _cases_for(g, rnd, 3 if big else 4, 4 if big else 24)
     json.dump(cases, open(os.path.join(d, "cases.json"), "w"), ensure_ascii=False)
     for s in sets:
         prefix, where = layout[s.name]
-        if s.name in failed:
-            badbins = {int(b) for b in failed[s.name]}
-            sub = [c for c in cases if where[c[0]] not in badbins]
-            got = suites.run_bins(prefix, where, sub)
-            it = iter(got)
-            impl = [next(it) if where[c[0]] not in badbins else "v=nobuild" for c in cases]
+        ex = exclude.get(s.name, ())
+        if rc != 0:
+            impl = ["v=nobuild"] * len(cases)        # the workspace still does not build: nothing to run
+        elif ex:
+            sub = [c for c in cases if c[0] not in ex]
+            it = iter(suites.run_bins(prefix, where, sub))
+            impl = [next(it) if c[0] not in ex else "v=nobuild" for c in cases]
         else:
             impl = suites.run_bins(prefix, where, cases)
         open(os.path.join(d, f"impl_{s.name}.txt"), "w").write("\n".join(_short_dbg(l) for l in impl) + "\n")
@@ -178,7 +229,9 @@ def suite_opts(tier, seed):
             "grammars": {g["gid"]: {"text": g["text"], "rules": g["rules"], "sexp": g["sexp"]} for g in ok},
             "rejected": [{"gid": g["gid"], "why": g["reject"][:200]} for g in bad],
             "determinism": det, "structure": structure, "boxed_impl": boxed_impl, "boxed_model": boxed_model,
-            "build_rc": rc, "build_failed": failed, "sexp": sexp}
+            "build_rc": rc, "build_err": (err[err.find("error"):][:3000] if rc != 0 and "error" in err else err[-3000:] if rc != 0 else ""),
+            "not_compiling": not_compiling, "excluded": {k: sorted(v) for k, v in exclude.items()},
+            "box_cycles": box_cycles, "box_cycle_checked": box_checked, "sexp": sexp}
     json.dump(meta, open(os.path.join(d, "meta.json"), "w"), ensure_ascii=False)
     suites._gc_cache(12)
     return d
@@ -269,13 +322,114 @@ def classify_raw_vs_opt(meta, diffs):
     return res
 
 
+# ---------------------------------------------------------------------------------------------
+# tie `optimizer-mirror`: the Lean mirror of pest_meta's optimizer (lean/PestTyped/Model/PestOpt.lean) against the real one
+
+OPT_MIRROR_PROBES = [
+    'a = { (PUSH("x")?)? ~ "y" }',                                       # the restorer does not look inside a RestoreOnErr it has just built
+    'a = @{ (!("x" | b | "yz") ~ ANY)* ~ b }\nb = { "q" | "r" }',        # skipper: inlining a two-alternative rule
+    'a = @{ (!c ~ ANY)* }\nc = { "q" | "r" | "s" }',                     # skipper: the rule map is un-rotated, three alternatives do not inline
+    'a = @{ (!(b | "x") ~ ANY)* }\nb = { "q" | "r" }',
+    'a = ${ "a" ~ "b" | "a" }\nb = @{ "a" ~ "b" | "a" ~ "c" | "a" }\nc = { "a" | "a" ~ "b" }',      # factorizer, all three arms
+    'a = { ("a" ~ "b")* ~ "a" ~ "c" }\nb = { ("a" ~ b)* ~ "a" }',        # lister
+    'a = @{ "a" ~ "b" ~ ^"c" ~ ^"d" ~ ("e" ~ "f")+ }',                    # concatenator after unroll
+    'a = { "a"{3} ~ "b"{2,} ~ "c"{,2} ~ "d"{1,3} ~ ("e"{2}){2} }',        # unroller
+    'a = { (b | "x")? ~ c* }\nb = { POP | "y" }\nc = { d }\nd = { DROP ~ c? | "z" }',       # restorer through rule references, with a cycle
+    'a = { (("a" ~ "b") ~ "c") ~ (("d" | "e") | "f") }',                  # rotater
+]
+
+
+def tie_optimizer_mirror(ctx, meta):
+    """`optimize raw` of the Lean mirror (command `pestopt <gid>` of model_driver, Driver/PestOpt.lean) must be the optimized AST
+    pest_meta produced, rule by rule, for every grammar of the T-run corpus (the grammar list of `suites.suite_run`), of the C20
+    corpus and of a few probes written around the individual passes; both ASTs of every rule are in the grammar's `dump_ast` line.
+    Second tie `optimizer-mirror:stages-vs-python`: after each of the six `ast::Expr` passes (rotate … list) the Lean mirror and
+    the python mirror `opts.pass_stages` (two independent transcriptions of pest_meta's source) hold the same expressions."""
+    suites.ensure_driver()
+    tier, seed = ctx.tier, ctx.seed
+    gs = corpus.systematic_grammars() + corpus.random_grammars(seed, 16 if tier == "quick" else 160)
+    reg = os.path.join(common.VERIF, "harness", "regressions", "grammars.json")
+    if os.path.exists(reg):
+        gs = json.load(open(reg)) + gs
+    ok, _ = corpus.validate(gs, need_pest=False, need_wf=False)
+    sexps = {g["gid"]: g["sexp"] for g in ok}
+    origin = {gid: "T-run" for gid in sexps}
+    for gid, g in meta["grammars"].items():
+        if gid not in sexps:
+            sexps[gid] = g["sexp"]
+            origin[gid] = "C20"
+    probes, bad = corpus.validate([{"gid": f"optprobe{i}", "text": t} for i, t in enumerate(OPT_MIRROR_PROBES)], need_pest=False, need_wf=False)
+    if bad:
+        ctx.tie_broken("optimizer-mirror", {"error": "pest_meta rejects a probe grammar", "first": [{"grammar": g["text"], "why": g["reject"][:200]} for g in bad[:3]]})
+    for g in probes:
+        sexps[g["gid"]] = g["sexp"]
+        origin[g["gid"]] = "probe"
+    gids = sorted(sexps)
+    path = os.path.join(BUILD, "c20", "optmirror_%s_%d.sexp" % (tier, os.getpid()))
+    os.makedirs(os.path.dirname(path), exist_ok=True)
+    open(path, "w").write("\n".join(sexps[g] for g in gids) + "\n")
+    out = _driver_lines(path, [f"pestopt {g}" for g in gids], nproc=4)
+    st_out = _driver_lines(path, [f"pestopt {g} stages" for g in gids], nproc=4)
+    try:
+        os.remove(path)
+    except OSError:
+        pass
+    nrules = nbad = changed = 0
+    nst = nst_bad = 0
+    py_restore_diff = []
+    per_origin = {}
+    pass_changes = {}
+    for gid, l, sl in zip(gids, out, st_out):
+        sx = corpus.parse_sexp(sexps[gid])
+        try:
+            lx = corpus.parse_sexp(l)
+            lean = {r[1]: r[2] for r in lx[1:]} if lx and lx[0] == "opt" else None
+        except Exception:
+            lean = None
+        per_origin[origin[gid]] = per_origin.get(origin[gid], 0) + 1
+        for r in sx[2:]:
+            nrules += 1
+            changed += r[3] != r[4]
+            if lean is None or lean.get(r[1]) != r[3]:
+                nbad += 1
+                if nbad <= 5:
+                    ctx.tie_broken("optimizer-mirror", {"gid": gid, "rule": r[1], "raw": opts.show_sexp(r[4]), "pest_meta": opts.show_sexp(r[3]),
+                                                        "lean": opts.show_sexp(lean[r[1]]) if lean and r[1] in lean else l[:200]})
+        # the stages: Lean vs the python mirror
+        stages = opts.pass_stages(sx)
+        try:
+            groups = corpus.parse_sexp("(all " + sl + ")")[1:]
+            lst = {grp[1]: {r[1]: r[2] for r in grp[2:]} for grp in groups}
+        except Exception:
+            lst = {}
+        prev = stages[0][1]
+        for name, exprs in stages[1:]:
+            if name == "restore":
+                if any(exprs[r[1]] != r[3] for r in sx[2:]):
+                    py_restore_diff.append(gid)
+                continue
+            nst += 1
+            pass_changes[name] = pass_changes.get(name, 0) + sum(1 for k in exprs if exprs[k] != prev[k])
+            prev = exprs
+            if lst.get(name) != exprs:
+                nst_bad += 1
+                if nst_bad <= 5:
+                    ctx.tie_broken("optimizer-mirror:stages-vs-python", {"gid": gid, "stage": name})
+    ctx.ties["optimizer-mirror"] = {"cases": nrules, "agree": nrules - nbad, "observables": ["optimized expression of every rule"], "grammars": len(gids),
+                                    "grammars_by_origin": per_origin, "rules_changed_by_the_optimizer": changed, "rules_changed_per_pass": pass_changes}
+    ctx.ties["optimizer-mirror:stages-vs-python"] = {"cases": nst, "agree": nst - nst_bad, "observables": ["every rule after rotate, skip, unroll, concatenate, factor, list"]}
+    if py_restore_diff:
+        # information (not a broken tie of the Lean mirror): opts.p_restore looks inside RestoreOnErr wrappers, pest_meta's iterator does not
+        ctx.coverage.setdefault("notes", []).append({"python_mirror_restore_differs_from_pest_meta": len(py_restore_diff), "first": py_restore_diff[:8]})
+
+
 def check_C20(ctx):
     from . import props
     from .tgen import tie_tgen
     tie_tgen(ctx, ctx.tier, ctx.seed)      # structural tie of the emitted module vs Model.Gen / GenOpts for four option sets
-    ctx.rule_text = ("corpus = hand-written (mutually) recursive grammars + probes around the optimizer passes + systematic feature grammars + "
+    ctx.rule_text = ("corpus = hand-written (mutually) recursive grammars + a systematic family of cycle shapes (length 1..6 x definition order x rules outside the cycle x container of the edges, interlocking cycles) + probes around the optimizer passes + systematic feature grammars + "
                      "seeded random grammars (plain / stack-heavy / recursive / multi-byte, and a second batch of recursive ones), each compiled "
-                     "under every option set of the tier (quick: default, all-on, pest_optimizer=false, 2 seeded combinations; thorough: all 16 "
+                     "under every option set of the tier (quick: default, all-on, pest_optimizer=false, box_only_if_needed alone, 2 seeded combinations; thorough: all 16 "
                      "combinations of box_only_if_needed x emit_rule_reference x do_not_emit_span x pest_optimizer); cases = every rule x all strings "
                      "up to length 4 over the grammar's alphabet + random longer ones x {parse_partial, parse}; one evaluation = one case "
                      "compared between the default option set and another one; non-trivial = the default run consumed input, left a stack or recorded "
@@ -284,6 +438,7 @@ def check_C20(ctx):
     meta = json.load(open(os.path.join(d, "meta.json")))
     cases = [tuple(x) for x in json.load(open(os.path.join(d, "cases.json")))]
     n = len(cases)
+    tie_optimizer_mirror(ctx, meta)         # the Lean mirror of pest_meta's optimizer against pest_meta's own output
     sets = meta["sets"]
     by_name = {s["name"]: s for s in sets}
     ctx.assumptions += [
@@ -323,20 +478,27 @@ def check_C20(ctx):
     ctx.ties["T-gen:boxed"] = {"cases": tot, "agree": agree, "observables": ["$boxed argument of every rule!"]}
     if tot != agree:
         ctx.tie_broken("T-gen:boxed", {"disagreements": tot - agree, "first": bdiffs})
-    # ---------------- rustc ----------------
-    for name, bins in meta["build_failed"].items():
-        for b, info in bins.items():
-            ctx.violation("does not compile under option set", (",".join(info["grammars"][:6]), "*", "rustc", "build", 0, 0, ""),
-                          option_set=by_name[name]["attrs"], rustc=info["rustc"])
-    if meta["build_rc"] != 0 and not meta["build_failed"]:
-        ctx.tie_broken("harness", {"error": "workspace build failed but no failing crate was identified"})
+    # ---------------- rustc: every option set must compile every grammar pest accepts ----------------
+    for nc in meta["not_compiling"]:
+        ctx.violation(P_NOCOMPILE_BOX if nc["box"] else P_NOCOMPILE, (nc["gid"], "*", "rustc", "build", 0, 0, ""),
+                      grammar=nc["grammar"], option_set=nc["attrs"] or "(default)", rustc=nc["rustc"],
+                      replay="derive TypedParser on `grammar` with the attributes `option_set` and run cargo build")
+    if meta["build_rc"] != 0:
+        ctx.tie_broken("harness", {"error": "the option workspace still does not build after isolating the grammars rustc pointed at",
+                                   "excluded": meta["excluded"], "cargo": meta["build_err"]})
+    # ---------------- boxing soundness read off the emitted code ----------------
+    for bc in meta["box_cycles"]:
+        ctx.violation(P_CYCLE, (bc["gid"], bc["cycle"][0], "derive", "tokens", 0, 0, ""),
+                      grammar=meta["grammars"][bc["gid"]]["text"], option_set=bc["attrs"] or "(default)",
+                      cycle=" -> ".join(bc["cycle"]), boxed=bc["boxed"], edges=bc["edges"])
 
     # ---------------- ties: model under each option set ----------------
     impl = {s["name"]: _read(d, f"impl_{s['name']}.txt", n) for s in sets}
     model = {b: _read(d, f"model_{b}.txt", n) for b in sorted({s["bits"] for s in sets})}
     for s in sets:
+        ex = set(meta["excluded"].get(s["name"], ()))
         ctx.tie(f"T-opts:{s['name']}[{s['attrs'] or 'default'}]", _Rows(cases, impl[s["name"]], model[s["bits"]]), TIE_KEYS,
-                lambda c, nm=s["name"]: True)
+                lambda c, ex=ex: c[0] not in ex)
 
     # ---------------- oracle: option invariance on the implementation ----------------
     def plain(s):
@@ -348,7 +510,8 @@ def check_C20(ctx):
     dist = {"same_ast_compared": 0, "cross_ast_compared": 0, "cross_ast_differ": 0, "accepted": 0, "rejected": 0,
             "recursive_grammars": sum(1 for g in meta["grammars"] if g.startswith(("m_", "rec")) or g == "s_rec"),
             "grammars": len(meta["grammars"]), "option_sets": len(sets), "processes_per_option_set": NPROC_DET,
-            "determinism_option_sets": nd_total}
+            "determinism_option_sets": nd_total, "cycle_shape_grammars": sum(1 for g in meta["grammars"] if g.startswith("y_")),
+            "boxing_oracle_checked": meta["box_cycle_checked"], "not_compiling": len(meta["not_compiling"])}
     for c, io in zip(cases, ref_obs):
         dist["accepted" if io.get("v") == "ok" else "rejected"] += 1
     cross = []
